@@ -118,6 +118,15 @@ class iterable_loader(DataStreamProcessor):
         dp.descriptor.setdefault('resources', []).append(self.res.descriptor)
         return dp
 
+    def iter_rows(self):
+        try:
+            yield from self.res.iter(keyed=True)
+        except Exception:
+            # tableschema wraps errors of the source iterator: re-raise the original one
+            if self.exc is not None:
+                raise self.exc
+            raise
+
     def process_resources(self, resources):
         yield from super(iterable_loader, self).process_resources(resources)
-        yield self.res.iter(keyed=True)
+        yield self.iter_rows()
